@@ -122,6 +122,9 @@ def _fit2d_from_case(case):
     names = ['m%03d' % i for i in range(fluxes.shape[0])]
     models = make_models_2d(names, fluxes, c['wav'])
     src = pkg.make_source('src', c['valid'], c['flux'], c['error'])
+    for o in c.get('prior') or []:
+        # the object has fitted other sources before (the statement quantifies over every fit, not the first)
+        models.fit(pkg.make_source('prior', o['valid'], o['flux'], o['error']), k.copy(), -2. * np.ones(len(k)), c['lo'], c['hi'])
     info = models.fit(src, k.copy(), -2. * np.ones(len(k)), c['lo'], c['hi'])
     return models, fluxes, k, src, info
 
@@ -138,6 +141,9 @@ def _fit3d_from_case(case):
     names = ['m%03d' % i for i in range(fluxes.shape[0])]
     models = make_models_3d(names, fluxes, c['wav'], c['dist'])
     src = pkg.make_source('src', c['valid'], c['flux'], c['error'])
+    for o in c.get('prior') or []:
+        # the object has fitted other sources before (the statement quantifies over every fit, not the first)
+        models.fit(pkg.make_source('prior', o['valid'], o['flux'], o['error']), k.copy(), -2. * np.ones(len(k)), c['lo'], c['hi'])
     info = models.fit(src, k.copy(), -2. * np.ones(len(k)), c['lo'], c['hi'])
     return models, fluxes, k, src, info
 
@@ -163,7 +169,7 @@ def _av_range(rng, clamp):
 
 def run_c01(tier, seed):
     rec = Recorder('C01', 'random sources (>=2 fitted points, any flags, limits with confidences) x random positive grids x '
-                          'A_V ranges {wide, lo==hi, clamping} through the real Models.fit (and the real Fitter for a subset); '
+                          'A_V ranges {wide, lo==hi, clamping} through the real Models.fit, as the first fit of the object or after another source (and the real Fitter for a subset); '
                           'distinct = (flag vector, range kind); non-trivial = at least one model clamped or a limit violated')
     n_cases = 150 if tier == 'quick' else 4000
     rng = np.random.default_rng(seed)
@@ -180,10 +186,15 @@ def run_c01(tier, seed):
         M = int(rng.integers(1, 7))
         fluxes = _grid(rng, M, n)
         lo, hi = _av_range(rng, t % 3)
-        case = _case(seed, 'c01', fluxes=fluxes, k=k, wav=wav, valid=src.valid, flux=src.flux, error=src.error, lo=lo, hi=hi)
-        models = make_models_2d(['m%03d' % i for i in range(M)], fluxes, wav)
+        prior = None
+        if t % 2:
+            pf = rng.choice((1, 1, 1, 2, 3, 4, 0), size=n)
+            pf[:2] = 1
+            ps = random_source(rng, n, pf, placeholders=False)
+            prior = [dict(valid=ps.valid, flux=ps.flux, error=ps.error)]
+        case = _case(seed, 'c01', fluxes=fluxes, k=k, wav=wav, valid=src.valid, flux=src.flux, error=src.error, lo=lo, hi=hi, prior=prior)
         try:
-            info = models.fit(src, k.copy(), -2. * np.ones(n), lo, hi)
+            models, _, _, _, info = _fit2d_from_case(case)
         except Exception as e:
             rec.fail('crash', 'Models.fit raised %s: %s' % (type(e).__name__, e), case)
             continue
